@@ -13,7 +13,7 @@ Oracle (history invariant): the first time a position is reached its state (ip, 
 Non-trivial = the walk has a Back of >=2 steps followed by a Fwd and the program executes a call, loop iteration, break, local, store, builder or cursor move; distinct = hash of program and walk",
     assumptions: &["instruction meter, captured stdout, last error and the log itself are not part of the compared state (the statement does not list them)"],
     max_len: 700,
-    quick_cases: 16_000,
+    quick_cases: 48_000,
     thorough_cases: 600_000,
     case,
     systematic: None,
